@@ -235,6 +235,8 @@ pub struct Run {
     pub per_check: Mutex<Vec<Value>>,
     pub violations: Mutex<Vec<Violation>>,
     pub start: Instant,
+    /// Replay mode: run only item `.1` of enumeration `.0` (generated checks are skipped).
+    pub only: Option<(String, u64)>,
 }
 
 impl Run {
@@ -263,6 +265,9 @@ impl Run {
         SF: Fn() -> S + Sync,
         F: Fn(&S::Value, &mut Ev) -> Outcome + Sync,
     {
+        if self.only.is_some() {
+            return true;
+        }
         let t0 = Instant::now();
         let workers = self.workers.min(cases.max(1) as usize).max(1);
         let per = cases.div_ceil(workers as u64);
@@ -365,6 +370,20 @@ impl Run {
     where
         F: Fn(u64, &mut Ev) -> Outcome + Sync,
     {
+        if let Some((c, i)) = &self.only {
+            if c == check && *i < n {
+                let mut ev = Ev::default();
+                let r = match guard(|| f(*i, &mut ev)) {
+                    Ok(r) => r,
+                    Err(p) => Err(Fail::new(format!("panic@{}", p.split(": ").next().unwrap_or("?")), format!("panic: {p}"))),
+                };
+                if let Err(fail) = r {
+                    self.report(check, json!({"index": i}), fail);
+                    return false;
+                }
+            }
+            return true;
+        }
         let t0 = Instant::now();
         let workers = self.workers.min(n.max(1) as usize).max(1);
         let results: Vec<(Ev, Option<(u64, Fail)>)> = std::thread::scope(|s| {
